@@ -144,3 +144,156 @@ Fixpoint trace (s : state) (evs : list event) : list (event * output) :=
 
 Definition is_clean (p : pc) : bool :=
   match p with PAcqClean | PRelClean _ => true | _ => false end.
+
+(* ========================================================================== *)
+(* Directory creators: NewSharedBuildDirectoryCreator(NewCleanBuildDirectory-
+   Creator(NewRootBuildDirectoryCreator(root), idleInvoker), counter), the
+   stack wired in cmd/bb_worker/main.go, as a sequential machine with a
+   failure script.  Each operation carries the failure flags of the calls
+   it makes on the base directory / the Cleaner, in call order.
+
+   root        children of the root build directory in creation order, each
+               with the names created inside it
+   users       IdleInvoker.useCount (no concurrency here: the Cleaner runs
+               to completion inside the operation)
+   counter     nextParallelActionID
+   slots       directories handed out and not yet closed: handle -> name
+
+   The Cleaner is a directory cleaner: success empties the root, failure
+   leaves it unchanged. *)
+From Coq Require Export String NArith DecimalString.
+
+
+Record gfail := mkGF {
+  gf_clean : bool;    (* Cleaner in Acquire (only consulted when it runs) *)
+  gf_mkdir : bool;    (* parentDirectory.Mkdir *)
+  gf_enter : bool;    (* parentDirectory.EnterBuildDirectory *)
+  gf_remove : bool;   (* parentDirectory.Remove after a failed enter *)
+  gf_clean2 : bool }. (* Cleaner in the Release of parentDirectory.Close() *)
+
+Record cfail := mkCF {
+  cf_child : bool;      (* child BuildDirectory.Close *)
+  cf_removeall : bool;  (* parentDirectory.RemoveAll *)
+  cf_clean : bool }.    (* Cleaner in Release *)
+
+Inductive dop :=
+| DGet (slot : nat) (dig : option string) (f : gfail)
+| DClose (slot : nat) (f : cfail)
+| DWrite (slot : nat) (file : string).
+
+Definition listing := list (string * list string).
+
+Record dstate := mkD {
+  d_root : listing;
+  d_users : nat;
+  d_counter : N;
+  d_slots : list (nat * string) }.
+
+Definition dinit : dstate := mkD [] 0 0%N [].
+
+Inductive dout :=
+| DSkip                 (* slot busy / not open: nothing happens *)
+| DGot (name : string)  (* GetBuildDirectory succeeded; name of the subdirectory *)
+| DErr (code : N)       (* GetBuildDirectory failed with this gRPC code *)
+| DClosed (code : N)    (* Close returned (0 = nil) *)
+| DWrote (ok : bool).
+
+Definition has (n : string) (r : listing) : bool :=
+  existsb (fun e => String.eqb (fst e) n) r.
+
+Definition rm (n : string) (r : listing) : listing :=
+  filter (fun e => negb (String.eqb (fst e) n)) r.
+
+Fixpoint slot_name (sl : list (nat * string)) (k : nat) : option string :=
+  match sl with
+  | [] => None
+  | (k', n) :: tl => if Nat.eqb k' k then Some n else slot_name tl k
+  end.
+
+Definition drop_slot (sl : list (nat * string)) (k : nat) : list (nat * string) :=
+  filter (fun e => negb (Nat.eqb (fst e) k)) sl.
+
+(* strconv.FormatUint(n, 10) *)
+Definition dec (n : N) : string := NilEmpty.string_of_uint (N.to_uint n).
+
+Definition dir_name (counter : N) (dig : option string) : string * N :=
+  match dig with
+  | None => let c := (counter + 1)%N in (dec c, c)
+  | Some h => (substring 0 16 h, counter)
+  end.
+
+(* IdleInvoker.Release with [users] holders before it: the Cleaner runs iff
+   this was the last one. Returns the root afterwards and the number of
+   Cleaner runs. *)
+Definition rel_clean (r : listing) (users : nat) (fail : bool) : listing * nat :=
+  if Nat.eqb users 1 then ((if fail then r else []), 1) else (r, 0).
+
+Fixpoint add_file (n file : string) (r : listing) : listing * bool :=
+  match r with
+  | [] => ([], false)
+  | (n', fs) :: tl =>
+    if String.eqb n' n then
+      if existsb (String.eqb file) fs then (r, false) else ((n', fs ++ [file]) :: tl, true)
+    else let '(tl', ok) := add_file n file tl in ((n', fs) :: tl', ok)
+  end.
+
+(* One operation: new state, result, number of Cleaner invocations. *)
+Definition dstep (s : dstate) (o : dop) : dstate * dout * nat :=
+  match o with
+  | DGet k dig f =>
+    match slot_name (d_slots s) k with
+    | Some _ => (s, DSkip, 0)
+    | None =>
+      (* cleanBuildDirectoryCreator: Acquire *)
+      let '(root1, ok1, c1) :=
+        if Nat.eqb (d_users s) 0
+        then (if gf_clean f then (d_root s, false, 1) else ([], true, 1))
+        else (d_root s, true, 0) in
+      if negb ok1 then (s, DErr 15, c1) else
+      let users1 := S (d_users s) in
+      let '(n, cnt) := dir_name (d_counter s) dig in
+      if gf_mkdir f || has n root1 then
+        let '(root2, c2) := rel_clean root1 users1 (gf_clean2 f) in
+        (mkD root2 (d_users s) cnt (d_slots s), DErr 13, c1 + c2)
+      else
+        let root2 := root1 ++ [(n, [])] in
+        if gf_enter f then
+          let root3 := if gf_remove f then root2 else rm n root2 in
+          let '(root4, c2) := rel_clean root3 users1 (gf_clean2 f) in
+          (mkD root4 (d_users s) cnt (d_slots s), DErr 13, c1 + c2)
+        else (mkD root2 users1 cnt ((k, n) :: d_slots s), DGot n, c1)
+    end
+  | DClose k f =>
+    match slot_name (d_slots s) k with
+    | None => (s, DSkip, 0)
+    | Some n =>
+      let root1 := if cf_removeall f then d_root s else rm n (d_root s) in
+      let '(root2, c) := rel_clean root1 (d_users s) (cf_clean f) in
+      let code := if cf_child f then 10%N
+                  else if cf_removeall f then 13%N
+                  else if Nat.eqb (d_users s) 1 && cf_clean f then 15%N else 0%N in
+      (mkD root2 (pred (d_users s)) (d_counter s) (drop_slot (d_slots s) k), DClosed code, c)
+    end
+  | DWrite k file =>
+    match slot_name (d_slots s) k with
+    | None => (s, DSkip, 0)
+    | Some n =>
+      let '(r', ok) := add_file n file (d_root s) in
+      (mkD r' (d_users s) (d_counter s) (d_slots s), DWrote ok, 0)
+    end
+  end.
+
+Fixpoint drun (s : dstate) (ops : list dop) : dstate :=
+  match ops with
+  | [] => s
+  | o :: tl => drun (fst (fst (dstep s o))) tl
+  end.
+
+(* What is observable of one step: result, Cleaner runs, listing afterwards. *)
+Record dobs := mkObs { ob_out : dout; ob_cleans : nat; ob_listing : listing }.
+
+Fixpoint dtrace (s : dstate) (ops : list dop) : list (dop * dobs) :=
+  match ops with
+  | [] => []
+  | o :: tl => let '(s', out, c) := dstep s o in (o, mkObs out c (d_root s')) :: dtrace s' tl
+  end.
